@@ -2,11 +2,11 @@ package props
 
 import (
 	"fmt"
-	"regexp"
 	"go/constant"
 	"go/token"
 	"go/types"
 	"net/netip"
+	"regexp"
 	"sort"
 	"strings"
 
